@@ -3,6 +3,46 @@
    reference semantics; both over the parser model dumped from the live metamodel. *)
 From TxV Require Import Core.Base Model.PegSyntax Model.Peg Model.Spec Proofs.SpecProofs.
 
+(* FULL STATEMENT (the property, for the documented fragment of grammars):
+     forall g c orc input, exists fuel0, forall fuel >= fuel0,
+       build (run g c orc false fuel input) = build_spec (spec_run g c orc fuel input)
+   i.e. same acceptance, same objects, classes, attribute values, defaults and containment, for EVERY
+   dumped grammar table.  It is false as stated (see the *_refuted theorems below: Arpeggio deviates from
+   PEG semantics on several constructs), so it is proved for the class [wfg]:
+
+   C01_refinement_partial.  For every grammar table g in the class wfg g pf (constructors: Sequence,
+   OrderedChoice, Optional, ZeroOrMore, OneOrMore, StrMatch (also ignore_case), RegExMatch, EOF, rule
+   references incl. recursion, the four assignment operators (they are Sequence/Optional/ZeroOrMore/
+   OneOrMore roots); global skipws/ws; no separators, eolterm, rule modifiers, predicates, suppression,
+   unordered groups, Comment rule; every choice alternative, repetition element and rule is
+   productive, no empty literal), every config, every input, every fuel and every regex oracle that
+   never reports an empty match: if the interpreter terminates within the fuel, then it accepts
+   exactly when the reference semantics accept, and the parse trees are equal (hence the models
+   Build constructs from them are equal: Build is a function of the tree).
+   Missing for the full statement: the excluded constructors, termination (fuel) as a theorem,
+   memoization on (C19). *)
+Theorem C01_refinement_partial :
+  forall g pf c orc fuel input,
+    wfg g pf = true -> orc_pos orc ->
+    match run g c orc false fuel input with
+    | Parsed r => exists ts p, spec_run g c orc fuel input = SOk ts p /\ erase_all ts = flatten r
+    | SyntaxErr _ => spec_run g c orc fuel input = SFail
+    | Aborted _ => True
+    end.
+Proof. exact refinement. Qed.
+Print Assumptions C01_refinement_partial.
+
+(* non-vacuity: a grammar with recursion-free rules, all four node kinds and assignments is in the
+   class, and is accepted / rejected on concrete inputs
+   (Model: 'a' items+=Item*; Item: name=ID ('=' v=INT)? | 'b';) *)
+Example C01_refinement_nonvacuous :
+  wfg g_items 24 = true /\
+  accepts (run g_items c_default (orc_of t_items) false 60 in_items) = true /\
+  saccepts (spec_run g_items c_default (orc_of t_items) 60 in_items) = true /\
+  accepts (run g_items c_default (orc_of [((0,0),1)]) false 60 [97;32;61]%N) = false.
+Proof. exact items_in_class. Qed.
+Print Assumptions C01_refinement_nonvacuous.
+
 (* Outside the class: an ordered-choice alternative that succeeds without producing a node
    (suppressed match) counts as failed.  M: ('a'- | 'b') 'c';  rejects "ac". *)
 Theorem C01_choice_suppressed_alt_refuted :
